@@ -354,13 +354,21 @@ func (s *Sched) WaitProc(p *Proc) {
 // killProc marks the process dead. Its tasks are unwound by the scheduler.
 func (s *Sched) killProc(p *Proc, code int, cause string) {
 	s.mu.Lock()
+	first := !p.dead
 	if !p.dead {
 		p.dead = true
 		p.ExitCode = code
 		p.Cause = cause
 	}
 	s.mu.Unlock()
+	if first && OnProcDead != nil {
+		OnProcDead(p)
+	}
 }
+
+// OnProcDead, if set, is called once when a simulated process dies (exit, return, crash):
+// the simulated OS releases what the process held (open files).
+var OnProcDead func(p *Proc)
 
 // Exit terminates the calling task's process with the given code (simulated os.Exit).
 func Exit(code int) {
